@@ -8,7 +8,7 @@ let con_name (c : con) : string =
   let i k = string_of_int (int_of_nat k) in
   match c with
   | IPredG k -> "predG" ^ i k | IPredS k -> "predS" ^ i k | IY k -> "y" ^ i k
-  | IR -> "R" | IOutG -> "outG" | IOutS -> "outS" | IRng -> "rng" | IPy0 -> "py0" | IPm0 -> "pm0" | IEmpty -> "empty"
+  | IR -> "R" | IGarbageR -> "garbageR" | IOutG -> "outG" | IOutS -> "outS" | IRng -> "rng" | IPy0 -> "py0" | IPm0 -> "pm0" | IEmpty -> "empty"
   | FH -> "h" | FInn -> "inn" | FCustomLik -> "customLik"
   | FKfPx -> "kfPx" | FKfUpdG -> "kfUpdG" | FKfUpdPy -> "kfUpdPy" | FKfLik -> "kfLik"
   | FSigma -> "sigma" | FUtPm -> "utPm" | FUtPxy -> "utPxy" | FPmDefault -> "pmDefault" | FPxyEmpty -> "pxyEmpty"
@@ -61,41 +61,64 @@ let kf_numeric (c : Caseio.case) (bits : bool list) =
    | None -> Caseio.out_int "num_lik_valid" 0
    | Some l -> Caseio.out_int "num_lik_valid" 1; Caseio.out_mat "num_lik" (col_of_lvec l))
 
+let ev_or_site (e : (sis_event, site) sum) : string = match e with Inl e -> ev_tok e | Inr s -> site_tok s
+
 let () =
   let cases = Caseio.read_records "case" stdin in
+  (* the implementation's output: only the SIS cases read it (whether the resampling test fired, per step) *)
+  let impl =
+    if Array.length Sys.argv > 1 then (let ic = open_in Sys.argv.(1) in let r = Caseio.read_records "out" ic in close_in ic; r) else [] in
+  let impl_int id name =
+    match List.find_opt (fun (r : Caseio.case) -> r.id = id) impl with
+    | Some r when Caseio.has r name -> Caseio.get_int r name
+    | _ -> 0 in
   List.iter
     (fun (c : Caseio.case) ->
       let pats = List.map bits_of (Caseio.get_word c "pat") in
       let mi k = Caseio.meta_int c k in
+      let mb k = (try Caseio.meta_int c k = 1 with _ -> false) in
+      let cfg = { c_skip = mb "skip"; c_iskip = mb "iskip"; c_emptyR = mb "emptyR"; c_alias = mb "alias" } in
       Caseio.out_begin c.id;
       (match c.kind with
        | "sis" ->
-           let ((_pred, cor), evs) = run_sis (List.hd pats) (nat_of_int 0) in
-           Caseio.out_word "g0" [ show (fst cor) ];
-           Caseio.out_word "s0" [ show (snd cor) ];
-           Caseio.out_word "events" (log_words ev_tok evs)
+           let steps = List.mapi (fun k b -> (b, impl_int c.id (Printf.sprintf "resampled%d" k) > 0)) pats in
+           List.iteri
+             (fun k (o : sis_obs) ->
+               let ks = string_of_int k in
+               Caseio.out_word ("events" ^ ks) (log_words ev_or_site o.so_events);
+               Caseio.out_word ("pred_g" ^ ks) [ show (fst o.so_pred) ];
+               Caseio.out_word ("pred_s" ^ ks) [ show (snd o.so_pred) ];
+               Caseio.out_word ("atlog_g" ^ ks) [ show (fst o.so_cor_at_log) ];
+               Caseio.out_word ("atlog_s" ^ ks) [ show (snd o.so_cor_at_log) ];
+               Caseio.out_word ("cor_g" ^ ks) [ show (fst o.so_cor) ];
+               Caseio.out_word ("cor_s" ^ ks) [ show (snd o.so_cor) ])
+             (run_sis_seq steps)
        | kind ->
+           let m = mi "m" and sub = mi "sub" and comps = mi "comps" in
+           let sub_ok = sub > 0 && m mod sub = 0 in
+           let ncalls = if sub > 0 then nat_of_int (comps * (m / sub)) else nat_of_int 0 in
+           let lcalls = if sub > 0 then nat_of_int (m / sub) else nat_of_int 0 in
+           let gpf inner custom = run_gpf_cfg cfg (nat_of_int inner) sub_ok ncalls custom pats in
            let obs =
              match kind with
-             | "kf" -> run_kf pats
-             | "ukf_gen" -> run_ukf false pats
-             | "ukf_add" -> run_ukf true pats
-             | "sukf" ->
-                 let m = mi "m" and sub = mi "sub" and comps = mi "comps" in
-                 let ok = m mod sub = 0 in
-                 run_sukf ok (nat_of_int (comps * (m / sub))) (nat_of_int (m / sub)) pats
-             | "gl" -> run_gl pats
-             | "boot_gl" -> run_boot false pats
-             | "boot_custom" -> run_boot true pats
-             | "gpf_kf_gl" -> run_gpf (nat_of_int 0) false pats
-             | "gpf_kf_custom" -> run_gpf (nat_of_int 0) true pats
-             | "gpf_ukfgen_gl" -> run_gpf (nat_of_int 1) false pats
-             | "gpf_ukfgen_custom" -> run_gpf (nat_of_int 1) true pats
-             | "gpf_ukfadd_gl" -> run_gpf (nat_of_int 2) false pats
-             | "gpf_ukfadd_custom" -> run_gpf (nat_of_int 2) true pats
+             | "kf" -> run_kf_cfg cfg pats
+             | "ukf_gen" -> run_ukf_cfg cfg false pats
+             | "ukf_add" -> run_ukf_cfg cfg true pats
+             | "sukf" -> run_sukf_cfg cfg sub_ok ncalls lcalls pats
+             | "gl" -> run_gl_cfg cfg pats
+             | "boot_gl" -> run_boot_cfg cfg false pats
+             | "boot_custom" -> run_boot_cfg cfg true pats
+             | "gpf_kf_gl" -> gpf 0 false
+             | "gpf_kf_custom" -> gpf 0 true
+             | "gpf_ukfgen_gl" -> gpf 1 false
+             | "gpf_ukfgen_custom" -> gpf 1 true
+             | "gpf_ukfadd_gl" -> gpf 2 false
+             | "gpf_ukfadd_custom" -> gpf 2 true
+             | "gpf_sukf_gl" -> gpf 3 false
+             | "gpf_sukf_custom" -> gpf 3 true
              | k -> failwith ("drv_C12: unknown kind " ^ k)
            in
            List.iteri print_obs obs;
-           if kind = "kf" then kf_numeric c (List.hd pats));
+           if kind = "kf" && not cfg.c_skip && not cfg.c_alias && not cfg.c_emptyR then kf_numeric c (List.hd pats));
       Caseio.out_end ())
     cases
